@@ -186,13 +186,13 @@ def correspond_heuristic(res, drv, case, form, rnd_label):
         finally:
             if restore is not None:
                 pbm.get_sampled_key = restore
-        if impl != st:
+        if core.err_class(impl) != core.err_class(st):      # (which exception is raised is not part of the property)
             res.disagree(f"{form} make_feasible outcome (invocation {invocation + 1})", impl, st)
             return
         if impl != "ok":
             return
         g = VU.graph_of(o)
-        if (g["nodes"], g["arcs"]) != (m["g"]["nodes"], m["g"]["arcs"]):
+        if (g["nodes"], sorted(g["arcs"])) != (m["g"]["nodes"], sorted(m["g"]["arcs"])):
             a, b = g["arcs"], m["g"]["arcs"]
             res.disagree(f"{form} graph after the heuristic", ([x for x in a if x not in b][:3], [n for n in g["nodes"] if n not in m["g"]["nodes"]][:2]),
                          ([x for x in b if x not in a][:3], [n for n in m["g"]["nodes"] if n not in g["nodes"]][:2]))
